@@ -96,6 +96,56 @@ class EndpointUrlArgsGenerator:
                     f"if {param_var_name} is not None else {{}}){line_end}"
                 )
 
+    def _write_cookie_params(self, writer: CodeWriter, ordered_params: List[dict[str, Any]], context: RenderContext) -> None:
+        """Writes cookie parameter dictionary construction (same shape as query and header parameters)."""
+        cookie_params_to_write = [p for p in ordered_params if p.get("param_in") == "cookie"]
+        if cookie_params_to_write:
+            context.add_import(f"{context.core_package_name}.utils", "DataclassSerializer")
+        for p_info in cookie_params_to_write:
+            param_var_name = NameSanitizer.sanitize_method_name(p_info["name"])
+            original_cookie_name = python_string_literal(p_info["original_name"])
+            if p_info.get("required", False):
+                writer.write_line(f"    {original_cookie_name}: DataclassSerializer.serialize({param_var_name}),")
+            else:
+                writer.write_line(
+                    f"    **({{{original_cookie_name}: DataclassSerializer.serialize({param_var_name})}} "
+                    f"if {param_var_name} is not None else {{}}),"
+                )
+
+    def write_param_dicts(
+        self, writer: CodeWriter, op: IROperation, ordered_params: List[dict[str, Any]], context: RenderContext
+    ) -> tuple[bool, bool, bool]:
+        """Writes the ``params`` / ``headers`` / ``cookies`` dictionaries for the parameters of each location.
+
+        Returns (has_query_params, has_header_params, has_cookie_params).
+        """
+        has_spec_query_params = any(p.get("param_in") == "query" for p in ordered_params)
+        if has_spec_query_params:
+            context.add_import("typing", "Any")  # For dict[str, Any]
+            context.add_import("typing", "Dict")  # For dict[str, Any]
+            writer.write_line("params: dict[str, Any] = {")
+            self._write_query_params(writer, op, ordered_params, context)
+            writer.write_line("}")
+            writer.write_line("")  # Add a blank line
+
+        has_header_params = any(p.get("param_in") == "header" for p in ordered_params)
+        if has_header_params:
+            context.add_import("typing", "Any")  # For dict[str, Any]
+            context.add_import("typing", "Dict")  # For dict[str, Any]
+            writer.write_line("headers: dict[str, Any] = {")
+            self._write_header_params(writer, op, ordered_params, context)
+            writer.write_line("}")
+            writer.write_line("")  # Add a blank line
+
+        has_cookie_params = any(p.get("param_in") == "cookie" for p in ordered_params)
+        if has_cookie_params:
+            context.add_import("typing", "Any")  # For dict[str, Any]
+            writer.write_line("cookies: dict[str, Any] = {")
+            self._write_cookie_params(writer, ordered_params, context)
+            writer.write_line("}")
+            writer.write_line("")  # Add a blank line
+        return has_spec_query_params, has_header_params, has_cookie_params
+
     def generate_url_and_args(
         self,
         writer: CodeWriter,
@@ -124,30 +174,8 @@ class EndpointUrlArgsGenerator:
         writer.write_line(f"url = {url_expr}")
         writer.write_line("")  # Add a blank line for readability
 
-        # Query Parameters
-        # Check if any parameter in ordered_params is a query param, not just op.parameters
-        has_spec_query_params = any(p.get("param_in") == "query" for p in ordered_params)
-        if has_spec_query_params:
-            context.add_import("typing", "Any")  # For dict[str, Any]
-            context.add_import("typing", "Dict")  # For dict[str, Any]
-            writer.write_line("params: dict[str, Any] = {")
-            # writer.indent() # Indentation should be handled by CodeWriter when writing lines
-            self._write_query_params(writer, op, ordered_params, context)
-            # writer.dedent()
-            writer.write_line("}")
-            writer.write_line("")  # Add a blank line
-
-        # Header Parameters
-        has_header_params = any(p.get("param_in") == "header" for p in ordered_params)
-        if has_header_params:
-            context.add_import("typing", "Any")  # For dict[str, Any]
-            context.add_import("typing", "Dict")  # For dict[str, Any]
-            writer.write_line("headers: dict[str, Any] = {")
-            # writer.indent()
-            self._write_header_params(writer, op, ordered_params, context)
-            # writer.dedent()
-            writer.write_line("}")
-            writer.write_line("")  # Add a blank line
+        # Query, header and cookie parameters
+        _, has_header_params, _ = self.write_param_dicts(writer, op, ordered_params, context)
 
         # Request Body related local variables (json_body, files_data, etc.)
         # This part was in _write_url_and_args in the original, it sets up variables used by _write_request
